@@ -9,6 +9,8 @@ C05-LEX   (E-LEX) scanner lemmas over a z3 model of lark's real per-state scanne
             case       every keyword terminal accepted in the state is recognised in every letter-case variant
             quoted     q s q (s without q, not ending in a backslash, not starting with '#') scans to one string token with that
                        lexeme, for q = ' and q = "   => the two quote styles carry the same content
+            symmetry   for every text, swapping the two quote characters swaps only the DOUBLE_/SINGLE_ variant of the token (strings, hex
+                       colours with and without alpha)
             bare       a bare word in value position scans to one word token with the word as lexeme
 C05-REL   (TSP) two surface renderings of one document - upper-case one-line double-quoted vs mixed-case, CRLF, tabs, comments
           between all tokens, single-quoted / bare strings - loaded with the same symbolic string contents give equal dicts.
@@ -72,6 +74,9 @@ def obligations(tier, seed):
         for q, qn in ((34, "dq"), (39, "sq")):
             obs.append(Ob(name=f"C05-LEX/quoted.{qn}.{ctx}", kind="z3", z3_call=("engine.lexmodel", "lx_class_quoted", {"ctx": ctx, "q": q, "L": L}), timeout=900,
                           meta={"desc": f"{chr(q)}s{chr(q)} scans to one string token with that lexeme (class: no {chr(q)}, no trailing backslash, no leading #)", "functions": ["DOUBLE/SINGLE_QUOTED_STRING and competitors"]}))
+        obs.append(Ob(name=f"C05-LEX/quote-symmetry.{ctx}", kind="z3", z3_call=("engine.lexmodel", "lx_quote_symmetry", {"ctx": ctx, "L": 11 if tier == "quick" else 13}), timeout=1500,
+                      meta={"desc": "for every text: swapping ' and \" throughout swaps the DOUBLE_/SINGLE_ variant of the scanned token (strings, hex colours incl. alpha forms) and changes nothing else",
+                            "functions": ["all terminals of the state"]}))
         obs.append(Ob(name=f"C05-LEX/bare.{ctx}", kind="z3", z3_call=("engine.lexmodel", "lx_bare_word", {"ctx": ctx, "L": 8 if tier == "quick" else 12}), timeout=900,
                       meta={"desc": "a bare word scans to one word token (or the state's keyword)", "functions": ["UNQUOTED_STRING + keyword re-typing"]}))
     holes = [Hole("H%02d" % i, L=2) for i in range(1, 10)]
